@@ -25,7 +25,7 @@ sh(f'git -C /repo worktree add -q --detach {wt} HEAD')
 ran = {}
 try:
     demo = os.path.join(dst, os.path.basename(meta['demo_file']))
-    dest = os.path.join(wt, meta['demo_dest'])
+    dest = os.path.join(wt, meta['demo_dest'] if 'demo_dest' in meta else os.path.join(meta['demo_dir'], os.path.basename(meta['demo_file'])))
     if os.path.isdir(dest) or dest.endswith('/'):
         dest = os.path.join(dest, os.path.basename(demo))
     pkgdir = os.path.dirname(os.path.relpath(dest, wt))
